@@ -103,7 +103,7 @@ func (t *trzszTransfer) pipelineSendHash(ctx context.Context, cancel context.Can
 			if m < kPrefixHashStep {
 				buf = buffer[:m]
 			}
-			n, err := file.Read(buf)
+			n, err := io.ReadFull(file, buf)
 			if err != nil {
 				cancel(err)
 				return
@@ -140,6 +140,13 @@ func (t *trzszTransfer) pipelineRecvHashAck(ctx context.Context, cancel context.
 			hashAck, err := t.recvHashAck()
 			if err != nil {
 				cancel(err)
+				return
+			}
+
+			// every hash is acknowledged in order: a lost or repeated ack must not shift the resume offset
+			expectStep := minInt64(matchStep+kPrefixHashStep, size)
+			if hashAck.Step != expectStep {
+				cancel(simpleTrzszError("Hash step check [%d] <> [%d]", hashAck.Step, expectStep))
 				return
 			}
 
